@@ -6,6 +6,7 @@ import XonshVerif.Model.Wire
 import XonshVerif.Model.Macro
 import XonshVerif.Model.WithMacro
 import XonshVerif.Model.Span
+import XonshVerif.Model.Concat
 import XonshVerif.Model.Helpers
 import XonshVerif.Model.Pipeline
 import XonshVerif.Model.Lines
@@ -46,6 +47,37 @@ def handleSpan (fs : List String) : String :=
   match fs with
   | idx :: tys => toString (Span.lastNonWs (tys.map TT.ofString).toArray (nat idx))
   | _ => "bad-request"
+
+def readBool (f : String) : Bool := f = "1"
+def encBool (b : Bool) : String := if b then "1" else "0"
+
+def readVal (f : String) : Concat.Val :=
+  match f.splitOn "." with
+  | ["C", v, b, u, a, e] => .const (decStr v) (readBool b) (readBool u) (readPos a) (readPos e)
+  | ["F", i] => .fmt (nat i)
+  | _ => .fmt 0
+
+def readVals (f : String) : List Concat.Val := if f = "-" then [] else (f.splitOn ";").map readVal
+
+def encVal : Concat.Val → String
+  | .const v b u a e => s!"C.{encStr v}.{encBool b}.{encBool u}.{encPos a}.{encPos e}"
+  | .fmt i => s!"F.{i}"
+
+def encVals (vs : List Concat.Val) : String := if vs.isEmpty then "-" else ";".intercalate (vs.map encVal)
+
+def readPart (f : String) : Concat.Part :=
+  match f.splitOn "|" with
+  | ["T", v, b, u, a, e] => .tok (decStr v) (readBool b) (readBool u) (readPos a) (readPos e)
+  | ["J", vs, a, e] => .joined (readVals vs) (readPos a) (readPos e)
+  | _ => .joined [] ⟨0, 0⟩ ⟨0, 0⟩
+
+/-- `concat part*` : `concatenate_strings` (without the path-literal wrapper) -/
+def handleConcat (fs : List String) : String :=
+  match Concat.concatStrings (fs.map readPart) with
+  | .node (.const v b u a e) => s!"C|{encStr v}|{encBool b}|{encBool u}|{encPos a}|{encPos e}"
+  | .node (.fmt _) => "bad-node"
+  | .joinedStr vs a e => s!"J|{encVals vs}|{encPos a}|{encPos e}"
+  | .mixError => "mixerr"
 
 /-- `macro <spacechars> tok*` -/
 def handleMacro (fs : List String) : String :=
